@@ -23,7 +23,7 @@ EXPLANATION = ('An abstract evaluation of the comparison-only function RuleEntry
                'on every opcode handler bound for constraint code, monotonicity of the pass index, and the size expression that '
                'wipes recycled slots.  The matching / precedence OUTPUT of rule programs against a reference semantics is a '
                'run-time fact and is not decided.')
-FLOORS = {'PRECEDENCE': 6, 'FIRSTPASSING': 1, 'PURECONSTRAINT': 30, 'PASSORDER': 2, 'RECYCLECLEAN': 3}
+FLOORS = {'PRECEDENCE': 6, 'FIRSTPASSING': 1, 'PURECONSTRAINT': 30, 'PASSORDER': 3, 'RECYCLECLEAN': 3}
 
 MUTATORS = {'graphite2::Slot::setGlyph', 'graphite2::Slot::attachTo', 'graphite2::Slot::child', 'graphite2::Slot::sibling', 'graphite2::Slot::removeChild',
             'graphite2::Slot::setAttr', 'graphite2::Segment::setFeature', 'graphite2::Segment::newSlot', 'graphite2::Segment::freeSlot',
@@ -497,6 +497,85 @@ def run(run):
     pureconstraint(run, vm)
     passorder(run, fx)
     passbitsfresh(run, fx)
+    from . import ordint as O
+    inst = 'every pass runs once, in font order (Face::runGraphite interpreted)'
+    try:
+        cases, bad, _ = passexec(run, fx, 4 if getattr(run, 'tier', 'quick') == 'quick' else 7)
+        if bad:
+            run.violated('PASSORDER', inst, fx.one('graphite2::Silf::runGraphite').where(), bad)
+        else:
+            run.held('PASSORDER', inst, fx.one('graphite2::Face::runGraphite').where(), '%d pass layouts interpreted' % cases)
+    except O.AnalysisBroken as x:
+        run.broken('PASSORDER', inst, str(x), '')
     from . import c19
     c19.dirflag(run, fx, 'PASSORDER')       # the reversed-stream flag that decides whether a pass re-reverses stays in step with the stream
     recycleclean(run, fx, vm)
+
+
+def passexec(run, fx, maxp=4, collect=None):
+    """PASSORDER by bounded abstract execution (rules/ordint.py): Face::runGraphite, with both of its Silf::runGraphite calls inlined from
+    their own CFGs, is interpreted for every pass layout the loader admits with up to maxp passes (first positioning pass p <= n, bidi
+    pass b = none or p <= b <= n); Pass::runGraphite is a native that records which pass ran.  Every pass 0..n-1 runs exactly once, in
+    font order, and the bidi re-ordering step happens exactly once when the font has one, between pass b-1 and pass b."""
+    from . import ordint as O
+    fr = fx.one('graphite2::Face::runGraphite')
+    PF, PP = 'graphite2::Silf::', 'graphite2::Pass::'
+    cases = 0
+    for n in range(0, maxp + 1):
+        for p in range(0, n + 1):
+            for b in [0xFF] + list(range(p, n + 1)):
+                log = []
+                passes = O.Vec([O.Rec({PP + 'id': k}) for k in range(n)])
+                silf = O.Rec()
+                silf[PF + 'm_passes'] = O.It(passes, 0)
+                silf[PF + 'm_numPasses'] = n
+                silf[PF + 'm_pPass'] = p
+                silf[PF + 'm_sPass'] = 0
+                silf[PF + 'm_jPass'] = p
+                silf[PF + 'm_bPass'] = b
+                silf[PF + 'm_dir'] = 0
+                silf[PF + 'm_aMirror'] = 0
+                silf[PF + 'm_flags'] = 0
+                seg = O.Rec()
+                face = O.Rec()
+                nat = {
+                    'graphite2::SlotMap::SlotMap': lambda I, fn, e, obj, a: O.Rec(),
+                    'graphite2::FiniteStateMachine::FiniteStateMachine': lambda I, fn, e, obj, a: O.Rec(),
+                    'graphite2::vm::Machine::Machine': lambda I, fn, e, obj, a: O.Rec(),
+                    'graphite2::vm::Machine::status': lambda I, fn, e, obj, a: 0,
+                    'graphite2::Segment::slotCount': lambda I, fn, e, obj, a: 3,
+                    'graphite2::Segment::getFace': lambda I, fn, e, obj, a: O.Ptr(face),
+                    'graphite2::Face::logger': lambda I, fn, e, obj, a: O.Ptr(None),
+                    'graphite2::Segment::dir': lambda I, fn, e, obj, a: 0,
+                    'graphite2::Segment::currdir': lambda I, fn, e, obj, a: 1,
+                    'graphite2::Segment::passBits': lambda I, fn, e, obj, a: 0,
+                    'graphite2::Segment::reverseSlots': lambda I, fn, e, obj, a: log.append('bidi'),
+                    'graphite2::Segment::doMirror': lambda I, fn, e, obj, a: None,
+                    'graphite2::Segment::associateChars': lambda I, fn, e, obj, a: log.append('assoc'),
+                    'graphite2::Segment::initCollisions': lambda I, fn, e, obj, a: True,
+                    'graphite2::Segment::charInfoCount': lambda I, fn, e, obj, a: 3,
+                    'graphite2::Pass::reverseDir': lambda I, fn, e, obj, a: 0,
+                    'graphite2::Pass::collisionLoops': lambda I, fn, e, obj, a: 0,
+                    'graphite2::Pass::runGraphite': lambda I, fn, e, obj, a: (log.append(obj[PP + 'id']), True)[1],
+                }
+                it = O.Interp(fx, natives=nat)
+                it.MAX_STEPS = 20000
+                cases += 1
+                desc = 'a font with %d pass(es), first positioning pass %d, bidi pass %s' % (n, p, 'none' if b == 0xFF else b)
+                try:
+                    it.call(fr, face, [O.Ptr(seg), O.Ptr(silf)])
+                except O.Violation as v:
+                    return cases, '%s: %s (%s)' % (desc, v.what, v.loc), None
+                ran = [x for x in log if isinstance(x, int)]
+                if ran != list(range(n)) and collect is not None:
+                    collect.append((n, p, b, log))
+                    continue
+                if ran != list(range(n)):
+                    return cases, '%s: Face::runGraphite runs the passes %s, expected each of 0..%d once in font order' % (desc, ran, n - 1), None
+                ev = [x for x in log if x != 'assoc']
+                want = list(range(n)) if b == 0xFF else list(range(b)) + ['bidi'] + list(range(b, n))
+                if ev != want:
+                    return cases, '%s: the bidi re-ordering step runs at %s, expected %s' % (desc, ev, want), None
+                if log.count('assoc') != 1 or [x for x in log if x == 'assoc' or isinstance(x, int)] != list(range(p)) + ['assoc'] + list(range(p, n)):
+                    return cases, '%s: characters are associated at %s, expected once between the substitution and positioning passes' % (desc, log), None
+    return cases, None, None
